@@ -110,9 +110,11 @@ def populate(d, name, ext, main, other_ext, lower, longer, pyc, delta):
         # a legacy side-by-side byte code file as py_compile writes it: magic, flags, source mtime, source size
         if pyc == 5:
             body = struct.pack('<L', 1) + b'\xec\x9f\x6e\xbe\x01\x02\x03\x04'   # read as a time this would be year 2071
+        elif pyc in (6, 7):
+            body = b'\x00' * (0 if pyc == 6 else 6)   # an interrupted copy: the header is cut after the magic / inside the time
         else:
             body = struct.pack('<LLL', 0, recorded, 1)
-        touch(os.path.join(d, name + '.pyc'), SRC_MTIME + 100, magic + body + b'\x00' * 8)
+        touch(os.path.join(d, name + '.pyc'), SRC_MTIME + 100, magic + body + (b'\x00' * 8 if pyc < 6 else b''))
 
 
 def ask(searcher, name, rebuild):
@@ -135,11 +137,11 @@ class FileSearchers(object):
                 'directory entries x mtime difference -2..2 s x rebuild; module names FOO-MIB and Foo')
 
     def blocks(self, tier):
-        return [{'kind': k, 'name': n} for k in ('any1', 'any2', 'py', 'pkg', 'pkgdot', 'pkgdotdecoy')
+        return [{'kind': k, 'name': n} for k in ('any1', 'any2', 'py', 'pkg', 'pkgdot', 'pkgdotdecoy', 'pkgns')
                 for n in ('FOO-MIB', 'Foo')]
 
     def cases(self, block, tier):
-        pycs = (0, 1, 2, 3, 4, 5) if block['kind'] in ('py', 'pkg') else (0, 1, 2) if block['kind'].startswith('pkg') else (0,)
+        pycs = (0, 1, 2, 3, 4, 5, 6, 7) if block['kind'] in ('py', 'pkg') else (0, 1, 2) if block['kind'].startswith('pkg') else (0,)
         for main, other, lower, longer, pyc, delta, rebuild in itertools.product(
                 (0, 1, 2), (0, 1), (0, 1), (0, 1), pycs, (-2, -1, 0, 1, 2), (0, 1)):
             yield {'kind': block['kind'], 'name': block['name'], 'main': main, 'other': other, 'lower': lower,
@@ -159,9 +161,10 @@ class FileSearchers(object):
             if kind.startswith('pkg'):
                 pkgname = top = os.path.basename(d)
                 target = d
-                with open(os.path.join(d, '__init__.py'), 'w') as f:
-                    f.write('')
-                if kind != 'pkg':
+                if kind != 'pkgns':   # pkgns: a namespace package (a directory without __init__.py)
+                    with open(os.path.join(d, '__init__.py'), 'w') as f:
+                        f.write('')
+                if kind not in ('pkg', 'pkgns'):
                     # a dotted package name: the modules live in <top>.mibs; with the decoy the directory of <top>
                     # itself holds an up-to-date file of the requested name, which is not part of the package asked
                     target = os.path.join(d, 'mibs')
@@ -195,7 +198,7 @@ class FileSearchers(object):
             if got not in want:
                 feat = []
                 if case['pyc']:
-                    feat.append('legacy-pyc-%s' % {1: 'valid', 2: 'badmagic', 3: 'stale', 4: 'fresh', 5: 'hash-based'}[case['pyc']])
+                    feat.append('legacy-pyc-%s' % {1: 'valid', 2: 'badmagic', 3: 'stale', 4: 'fresh', 5: 'hash-based', 6: 'cut-after-magic', 7: 'cut-inside-header'}[case['pyc']])
                 if case['main'] == 2:
                     feat.append('directory')
                 feat.append('delta%+d' % case['delta'] if case['main'] == 1 else 'no-file')
